@@ -576,6 +576,14 @@ class Check:
         return True
 
     def finish(self):
+        if getattr(self, "replay_key", None):
+            hit = [v for v in self.violations if v[0] == self.replay_key]
+            self.rd.cleanup()
+            if hit:
+                print("VIOLATION property=%s replay=%s" % (self.pid, hit[0][1]), flush=True)
+                return 1
+            print("replay: %s did not reproduce (%d other violations)" % (self.replay_key, len(self.violations)), flush=True)
+            return 0
         wall = time.time() - self.t0
         ev = {"property_id": self.pid, "tier": self.tier, "seed": seed(), "level": self.level,
               "coverage": self.cov, "assumptions": self.assumptions, "wall_s": round(wall, 2),
@@ -603,9 +611,17 @@ class Check:
 def main_wrapper(pid, fn):
     """fn(check) performs the check. Handles Undecided → exit 2."""
     tier = os.environ.get("VERIF_TIER") or (sys.argv[1] if len(sys.argv) > 1 else "quick")
+    replay_key = None
+    if len(sys.argv) > 2 and sys.argv[1] == "--replay":
+        # replay: re-run the tier the finding came from and report whether the recorded case fails again
+        rec = json.load(open(sys.argv[2]))
+        replay_key = rec.get("key")
+        print("replaying %s: %s" % (replay_key, (rec.get("description") or "")[:300]), flush=True)
+        tier = os.environ.get("VERIF_TIER") or "quick"
     if tier not in ("quick", "thorough"):
         tier = "quick"
     chk = Check(pid, tier)
+    chk.replay_key = replay_key
     try:
         fn(chk)
         rc = chk.finish()
